@@ -7,7 +7,9 @@
    PAT      := (pv x) | pw | (pt PAT ..) | (pr (f PAT) ..)
    E        := (lit z) (var x) now sr self (bin op E E) (neg E) (let PAT E E) (if E E E) (mem E) (delay n E E)
                (tup E ..) (proj E i) (rec (f E) ..) (fld E f) (lam (x ..) E) (app E E ..) (cnamed f (x E) ..) (pipe E E)
-               (asg x E) (seq E E)
+               (asg x E) (seq E E) (selfs SH) (con TN TAG) (con TN TAG E) (match E (MP E) ..)
+   SH       := N | (st SH ..) | (sr (f SH) ..) | (ss NAME OPT ..)   OPT := - | SH        [shape a `self` is read at]
+   MP       := (ml z) | mw | (mc TAG) | (mc TAG PAT) | (mt MP ..)
    dyn_stateful: an instance created after the global initialisation holds state (class of finding X4) *)
 open Lmmx_model
 let rec p_of_int i = if i = 1 then XH else if i land 1 = 0 then XO (p_of_int (i / 2)) else XI (p_of_int (i / 2))
@@ -52,8 +54,26 @@ let rec pat_of = function
   | L (A "pt" :: ps) -> PTup (List.map pat_of ps)
   | L (A "pr" :: fs) -> PRec (List.map (function L [f; p] -> (idn f, pat_of p) | _ -> failwith "pr") fs)
   | _ -> failwith "pat"
+let rec shape_of = function
+  | A "N" -> SNum
+  | L (A "st" :: shs) -> STup (List.map shape_of shs)
+  | L (A "sr" :: fs) -> SRec (List.map (function L [f; sh] -> (idn f, shape_of sh) | _ -> failwith "sr") fs)
+  | L (A "ss" :: nm :: cs) -> SSum (idn nm, List.map (function A "-" -> None | sh -> Some (shape_of sh)) cs)
+  | _ -> failwith "shape"
+let rec mpat_of = function
+  | A "mw" -> MWild
+  | L [A "ml"; z] -> MLit (z_of_int (num z))
+  | L [A "mc"; t] -> MCon (nat_of_int (num t), None)
+  | L [A "mc"; t; p] -> MCon (nat_of_int (num t), Some (pat_of p))
+  | L (A "mt" :: ms) -> MTup (List.map mpat_of ms)
+  | _ -> failwith "mpat"
 let rec expr_of = function
   | A "now" -> XNow | A "sr" -> XSr | A "self" -> XSelf
+  | L [A "selfs"; sh] -> XSelfS (shape_of sh)
+  | L [A "con"; tn; t] -> XCon (idn tn, nat_of_int (num t), None)
+  | L [A "con"; tn; t; a] -> XCon (idn tn, nat_of_int (num t), Some (expr_of a))
+  | L (A "match" :: sc :: arms) ->
+      XMatch (expr_of sc, List.map (function L [m; e] -> (mpat_of m, expr_of e) | _ -> failwith "arm") arms)
   | L [A "lit"; v] -> XLit (z_of_int (num v))
   | L [A "var"; v] -> XVar (idn v)
   | L [A "bin"; A op; a; b] -> XBin (binop_of op, expr_of a, expr_of b)
@@ -102,6 +122,10 @@ let rec uses_self = function
   | XTuple es -> List.exists uses_self es
   | XRecord fs | XCallNamed (_, fs) -> List.exists (fun (_, e) -> uses_self e) fs
   | XApp (f, args) -> uses_self f || List.exists uses_self args
+  | XSelfS _ -> true
+  | XCon (_, _, None) -> false
+  | XCon (_, _, Some a) -> uses_self a
+  | XMatch (sc, arms) -> uses_self sc || List.exists (fun (_, e) -> uses_self e) arms
 
 let run_case (line : string) : string =
   let bar = String.index line '|' in
@@ -123,7 +147,7 @@ let run_case (line : string) : string =
       List.iteri (fun i c ->
         if i >= k0 then begin
           let ST (_, ks) = c.ci_state in
-          if (match c.ci_state with ST (CNone, []) -> false | _ -> true) && (uses_self c.ci_body || List.exists has_cell ks)
+          if (match c.ci_state with ST (CNone, []) -> false | _ -> true) && (uses_self c.ci_body || (match ks with kb :: _ -> has_cell kb | [] -> false))
           then dyn := true
         end) w.w_clos;
       Printf.sprintf "{\"ref\":[%s],\"init_instances\":%d,\"instances\":%d,\"dyn_stateful\":%s}"
